@@ -72,6 +72,7 @@ type c24ref struct {
 	end     int   // offset just past the message
 	lines   []int // start offsets of the physical header lines (not the request line)
 	hdrEnd  int   // start offset of the line that ends the header section (or len(s))
+	bodyAt  int   // offset just past the header section (or len(s))
 }
 
 func c24isTchar(b byte) bool {
@@ -163,8 +164,8 @@ func c24clKind(e []byte) string {
 		return "minus-sign"
 	}
 	// digits surrounded by bytes that are "space" for some libraries but are not OWS
-	t := strings.Trim(string(e), "\v\f\r\n\u0085\u00a0")
-	if t != string(e) && c24isDigits([]byte(t)) {
+	t := strings.Trim(string(e), "\v\f\r\n\u0085\u00a0 \t")
+	if t != string(e) && (t == "" || c24isDigits([]byte(t))) {
 		return "non-ows-space"
 	}
 	return "other"
@@ -176,7 +177,7 @@ type c24field struct {
 }
 
 func c24RefParse(s []byte, pos int) (v c24ref) {
-	v.hdrEnd = len(s)
+	v.hdrEnd, v.bodyAt = len(s), len(s)
 	verdict := func(kind int, reason string) c24ref {
 		if len(v.classes) > 0 {
 			// something that must be rejected was already seen: whatever follows, bfe must reject
@@ -250,6 +251,7 @@ func c24RefParse(s []byte, pos int) (v c24ref) {
 				v.tags = c24add(v.tags, "bare-lf")
 			}
 			pos = next
+			v.bodyAt = pos
 			break
 		}
 		v.lines = append(v.lines, pos)
@@ -377,7 +379,7 @@ func c24RefParse(s []byte, pos int) (v c24ref) {
 		}
 	} else if len(cl) > 0 {
 		var vals [][]byte
-		for _, val := range cl {
+		for fi, val := range cl {
 			elems := [][]byte{val}
 			if bytes.IndexByte(val, ',') >= 0 {
 				v.tags = c24add(v.tags, "cl-list-value")
@@ -386,8 +388,13 @@ func c24RefParse(s []byte, pos int) (v c24ref) {
 			for _, e := range elems {
 				e = c24trimOWS(e)
 				if !c24isDigits(e) {
-					// 3.3.3 (4): invalid Content-Length value: unrecoverable error
-					v.classes = c24add(v.classes, "cl:invalid:"+c24clKind(e))
+					// 3.3.3 (4): invalid Content-Length value: unrecoverable error. Input class: the
+					// kind of invalid value in the first field line, or "a later field line is invalid".
+					if fi == 0 {
+						v.classes = c24add(v.classes, "cl:invalid:"+c24clKind(e))
+					} else if len(v.classes) == 0 {
+						v.classes = c24add(v.classes, "cl:invalid-in-later-field")
+					}
 					continue
 				}
 				vals = append(vals, e)
@@ -648,6 +655,7 @@ type c24vio struct {
 	detail func() string
 	lines  []int
 	hdrEnd int
+	bodyAt int
 }
 
 func c24sorted(l []string) []string {
@@ -699,9 +707,16 @@ func c24judge(s []byte, B []c24breq) (*c24vio, string) {
 		mk := func(typ, kind string, what func() string) *c24vio {
 			tags := R.tags
 			if R.kind == c24Must {
-				tags = nil // the must-reject classes name the input class; leniencies met on the way do not
+				// the must-reject classes name the input class; of the leniencies met on the way only
+				// those that change which lines belong to the header section say something
+				tags = nil
+				for _, t := range R.tags {
+					if strings.HasPrefix(t, "ws-") {
+						tags = append(tags, t)
+					}
+				}
 			}
-			return &c24vio{k: k, typ: typ, sig: c24sigTags(R.classes, tags) + ":" + kind, lines: R.lines, hdrEnd: R.hdrEnd,
+			return &c24vio{k: k, typ: typ, sig: c24sigTags(R.classes, tags) + ":" + kind, lines: R.lines, hdrEnd: R.hdrEnd, bodyAt: R.bodyAt,
 				detail: func() string {
 					return fmt.Sprintf("request #%d at offset %d: %s; bfe: method=%q target=%q keys=%v headerMap=%v %s body=%s end=%d", k, at, what(), b.method, b.target, b.keys, b.mapKeys, b.framing, vk.Q(b.body), b.end)
 				}}
@@ -737,9 +752,9 @@ func c24judge(s []byte, B []c24breq) (*c24vio, string) {
 		// reference accepts
 		if b.kind != c24bAccept {
 			if len(R.tags) == 0 {
-				return nil, "bfe-rejects-strictly-valid:" + b.stage
+				return nil, "bfe-rejects-ref-accepts-without-leniency:" + b.stage
 			}
-			return nil, "bfe-rejects-leniently-valid"
+			return nil, "bfe-rejects-ref-accepts-by-leniency"
 		}
 		refDesc := func() string {
 			return fmt.Sprintf("reference (leniencies %v): method=%q target=%q names=%v chunked=%v body=%s end=%d", R.tags, R.method, R.target, R.names, R.chunked, vk.Q(R.body), R.end)
@@ -786,19 +801,34 @@ func (h *c24h) eval(s []byte, mode int) (*c24vio, []byte, string) {
 	if v == nil {
 		return nil, nil, oc
 	}
+	// minimise: drop everything after the header section, then runs of 1..3 header lines, as
+	// long as some violation at the same request remains
 	cur := s
+	try := func(cand []byte) bool {
+		v2, _ := c24judge(cand, h.runBFE(cand, mode))
+		if v2 != nil && v2.k == v.k {
+			cur, v = cand, v2
+			return true
+		}
+		return false
+	}
 	for changed := true; changed; {
 		changed = false
-		for j := len(v.lines) - 1; j >= 0; j-- {
-			end := v.hdrEnd
-			if j+1 < len(v.lines) {
-				end = v.lines[j+1]
-			}
-			cand := append(append([]byte{}, cur[:v.lines[j]]...), cur[end:]...)
-			v2, _ := c24judge(cand, h.runBFE(cand, mode))
-			if v2 != nil && v2.k == v.k {
-				cur, v, changed = cand, v2, true
-				break
+		if v.bodyAt < len(cur) && try(append([]byte{}, cur[:v.bodyAt]...)) {
+			changed = true
+			continue
+		}
+	ranges:
+		for n := 1; n <= 3; n++ {
+			for j := len(v.lines) - n; j >= 0; j-- {
+				end := v.hdrEnd
+				if j+n < len(v.lines) {
+					end = v.lines[j+n]
+				}
+				if try(append(append([]byte{}, cur[:v.lines[j]]...), cur[end:]...)) {
+					changed = true
+					break ranges
+				}
 			}
 		}
 	}
@@ -969,7 +999,7 @@ func c24build(dst []byte, pre, rl string, seq []int, end, tail, post string) []b
 func TestVerifC24(t *testing.T) {
 	r := vk.Start(t, "C24")
 	defer r.Finish()
-	debug.SetGCPercent(800) // many tiny short-lived requests; the live heap is a few KB
+	debug.SetGCPercent(400) // many tiny short-lived requests; the live heap is a few KB
 	h := &c24h{r: r, br: bfe_bufio.NewReader(nil), buf: make([]byte, 512), oc: map[string]int64{}, seen: map[string]bool{}}
 	defer h.flush()
 	mine := func(i int) bool { return r.Mine(int(uint32(i) * 2654435761 >> 12)) }
@@ -988,15 +1018,18 @@ func TestVerifC24(t *testing.T) {
 		if !mine(idx) || r.Expired("F1") {
 			return
 		}
-		rls := c24reqLines
+		rls, nf := c24reqLines, c24nFrag
 		if len(seq) == 3 {
 			rls = c24reqLines[:3]
+		}
+		if len(seq) == 2 && !r.Thorough() {
+			nf = 2 // quick: two-line blocks whole and byte-wise only
 		}
 		for ri, rl := range rls {
 			for ti, tail := range c24tails {
 				s = c24build(s, "", rl, seq, "\r\n", tail, "")
 				desc := func() string { return vk.Key(ri, fmt.Sprint(seq), ti) }
-				h.check("F1", desc, s, c24nFrag)
+				h.check("F1", desc, s, nf)
 				if len(seq) > 0 || ti > 0 {
 					r.NontrivialN(1)
 				}
